@@ -214,6 +214,7 @@ func (s *tendermintWALStore[V, H, A]) removeObsoleteWALFiles(
 	// Future optimisation: run cleanup in a background worker, piggyback prune
 	// durability on the next WAL flush instead of the driver's per-height Flush.
 	rotateErr := s.wal.rotateAfterSynced()
+	verifPoint("rotated")
 	cleanupErr := s.cleanupObsoleteWALs()
 	if rotateErr == nil && cleanupErr == nil {
 		s.pruneRecordsSinceCleanup = 0
@@ -241,6 +242,7 @@ func (s *tendermintWALStore[V, H, A]) cleanupObsoleteWALs() error {
 		if err := log.FS.Remove(log.Path); err != nil && !errors.Is(err, os.ErrNotExist) {
 			return fmt.Errorf("cleanupObsoleteWALs: remove obsolete WAL %s: %w", log.Path, err)
 		}
+		verifPoint("obsolete-removed")
 	}
 	return nil
 }
